@@ -1,8 +1,109 @@
-import DarkluaModel.Util.Sexp
-/-! Line-protocol handlers for property C05 (stub: nothing modelled yet). -/
+import DarkluaModel.Shared.AstSexp
+import DarkluaModel.C05.Model
+/-!
+Line-protocol handlers for property C05.
+
+* `c05.inline <graph> <sites>` → `(bundle (defs (<path> <name> (<dec>*))*) (entry <dec>*) (errors <err>*))`
+  graph  ::= ((<path> MODULE)*)          path, name = hex atoms (`x…`)
+  MODULE ::= (lua (SITE*) RET) | data | parse-error | bad-ext          RET ::= one | none | many
+  SITE   ::= (BOOL TARGET)               BOOL = a local `require` is in scope at the site
+  TARGET ::= excluded | (notfound <path>) | (file <path>)
+  dec    ::= - | <name>                  err ::= (notfound p) (cyclic p*) (missing p) (parse p) (badext p) (noreturn p) (manyreturn p) fuel
+* `c05.h5 <graph>` → `true|false`: hypothesis H5 (no required module shadows `require` at a call site)
+* `c05.assemble <M> ((<name> <block>)*) <block>` → the bundled block (`assemble`)
+* `c05.names <k>` → the first k module names
+-/
 namespace DarkluaModel.C05
 
-def handle (op : String) (_args : List String) : String :=
-  "unknown-op " ++ op
+def targetOf? : Sexp → Option (Target String)
+  | .atom "excluded" => some .excluded
+  | .list [.atom "notfound", p] => (nameOfSexp? p).map .notFound
+  | .list [.atom "file", p] => (nameOfSexp? p).map .file
+  | _ => none
+
+def siteOf? : Sexp → Option (Site String)
+  | .list [b, t] =>
+    match b.bool?, targetOf? t with
+    | some b, some t => some ⟨b, t⟩
+    | _, _ => none
+  | _ => none
+
+def retOf? : Sexp → Option RetShape
+  | .atom "one" => some .one
+  | .atom "none" => some .noReturn
+  | .atom "many" => some .many
+  | _ => none
+
+def moduleOf? : Sexp → Option (Module String)
+  | .atom "data" => some .data
+  | .atom "parse-error" => some .parseError
+  | .atom "bad-ext" => some .badExtension
+  | .list [.atom "lua", .list sites, ret] =>
+    match sites.mapM siteOf?, retOf? ret with
+    | some ss, some r => some (.lua ss r)
+    | _, _ => none
+  | _ => none
+
+def graphOf? : Sexp → Option (Graph String)
+  | .list entries =>
+    entries.mapM fun e =>
+      match e with
+      | .list [p, m] =>
+        match nameOfSexp? p, moduleOf? m with
+        | some p, some m => some (p, m)
+        | _, _ => none
+      | _ => none
+  | _ => none
+
+def decToSexp (names : List String) : Option Nat → Sexp
+  | none => .atom "-"
+  | some i => match names[i]? with
+    | some n => nameToSexp n
+    | none => .atom "?"
+
+def errToSexp : Err String → Sexp
+  | .notFound q => .list [.atom "notfound", nameToSexp q]
+  | .cyclic ps => .list (.atom "cyclic" :: ps.map nameToSexp)
+  | .missing p => .list [.atom "missing", nameToSexp p]
+  | .parse p => .list [.atom "parse", nameToSexp p]
+  | .badExtension p => .list [.atom "badext", nameToSexp p]
+  | .noReturn p => .list [.atom "noreturn", nameToSexp p]
+  | .manyReturn p => .list [.atom "manyreturn", nameToSexp p]
+  | .fuel => .atom "fuel"
+
+def bundleToSexp (b : Bundle String) : Sexp :=
+  let names := moduleNames b.defs.length
+  .list [.atom "bundle",
+    .list (.atom "defs" :: (b.defs.zip names).map fun ((p, ds), n) =>
+      .list [nameToSexp p, nameToSexp n, .list (ds.map (decToSexp names))]),
+    .list (.atom "entry" :: b.entry.map (decToSexp names)),
+    .list (.atom "errors" :: b.errors.map errToSexp)]
+
+def handle (op : String) (args : List String) : String :=
+  match op, Sexp.parseArgs args with
+  | "inline", some [g, .list sites] =>
+    match graphOf? g, sites.mapM siteOf? with
+    | some G, some ss => (bundleToSexp (inlineAll G ss)).toString
+    | _, _ => "bad-request"
+  | "h5", some [g] =>
+    match graphOf? g with
+    | some G => toString (H5 G)
+    | none => "bad-request"
+  | "assemble", some [m, .list mods, entry] =>
+    let mods? := mods.mapM fun e =>
+      match e with
+      | .list [n, b] =>
+        match nameOfSexp? n, Block.ofSexp? b with
+        | some n, some b => some (n, b)
+        | _, _ => none
+      | _ => none
+    match nameOfSexp? m, mods?, Block.ofSexp? entry with
+    | some M, some mods, some e => (assemble M mods e).toSexp.toString
+    | _, _, _ => "bad-request"
+  | "names", some [k] =>
+    match k.nat? with
+    | some k => " ".intercalate ((moduleNames k).map fun n => (nameToSexp n).toString)
+    | none => "bad-request"
+  | _, _ => "unknown-op " ++ op
 
 end DarkluaModel.C05
